@@ -122,6 +122,15 @@ structure LenInv (fuel : Nat) : Prop where
   block : ∀ ss st, (blockS fuel ss st).2.blocks.length = st.blocks.length
   ifs : ∀ br els st, (ifS fuel br els st).2.blocks.length = st.blocks.length
   whl : ∀ c body st, (whileS fuel c body st).2.blocks.length = st.blocks.length
+  fe : ∀ x d vals body st, (foreachS fuel x d vals body st).2.blocks.length = st.blocks.length
+
+theorem inBlockWith_length {α} (b : Block) (f : St → α × St) (st : St)
+    (h : (f { st with blocks := b :: st.blocks }).2.blocks.length = st.blocks.length + 1) :
+    (inBlockWith b f st).2.blocks.length = st.blocks.length := by
+  unfold inBlockWith
+  simp only [St.pop, List.length_tail]
+  rw [h]
+  simp
 
 theorem inBlock_length {α} (f : St → α × St) (st : St)
     (h : (f st.push).2.blocks.length = st.push.blocks.length) :
@@ -132,7 +141,7 @@ theorem inBlock_length {α} (f : St → α × St) (st : St)
   simp [St.push]
 
 theorem lenInv : ∀ fuel, LenInv fuel
-  | 0 => by constructor <;> intros <;> simp [evalS, evalArgsS, callS, bindParamsS, stmtS, blockS, ifS, whileS]
+  | 0 => by constructor <;> intros <;> simp [evalS, evalArgsS, callS, bindParamsS, stmtS, blockS, ifS, whileS, foreachS]
   | fuel + 1 => by
     have ih := lenInv fuel
     constructor
@@ -248,6 +257,7 @@ theorem lenInv : ∀ fuel, LenInv fuel
         split <;> grind
       | ifs br els => simp only [stmtS]; exact ih.ifs br els st
       | «while» c body => simp only [stmtS]; exact ih.whl c body st
+      | foreach x d vals body => simp only [stmtS]; exact ih.fe x d vals body st
       | brk => simp [stmtS]
       | cont => simp [stmtS]
       | exit => simp [stmtS]
@@ -308,6 +318,26 @@ theorem lenInv : ∀ fuel, LenInv fuel
           have := ih.whl c body
           split <;> grind
         · grind
+    · -- foreach
+      intro x d vals body st
+      cases vals with
+      | nil => cases d <;> simp [foreachS]
+      | cons v rest =>
+        cases d with
+        | true =>
+          simp only [foreachS]
+          have h2 := inBlockWith_length ⟨[(x, v)], []⟩ (blockS fuel body) st ((ih.block body _).trans (by simp))
+          have := ih.fe x true rest body
+          split <;> grind
+        | false =>
+          simp only [foreachS]
+          split
+          · rfl
+          · rename_i bs hbs
+            have := setVar_length hbs
+            have h2 := inBlock_length (blockS fuel body) { st with blocks := bs } (ih.block _ _)
+            have := ih.fe x false rest body
+            split <;> grind
 
 /-! ## `insInv`: an empty block is transparent -/
 
@@ -400,6 +430,9 @@ structure InsInv (fuel : Nat) : Prop where
     ifS fuel br els (st.ins (n + 1)) = ((ifS fuel br els st).1, (ifS fuel br els st).2.ins (n + 1))
   whl : ∀ n c body st, st.blocks ≠ [] →
     whileS fuel c body (st.ins (n + 1)) = ((whileS fuel c body st).1, (whileS fuel c body st).2.ins (n + 1))
+  fe : ∀ n x d vals body st, st.blocks ≠ [] →
+    foreachS fuel x d vals body (st.ins (n + 1)) =
+      ((foreachS fuel x d vals body st).1, (foreachS fuel x d vals body st).2.ins (n + 1))
 
 theorem ne_nil_of_length_eq {α} {l l' : List α} (h : l'.length = l.length) (hl : l ≠ []) : l' ≠ [] := by
   cases l' with
@@ -418,8 +451,21 @@ theorem inBlock_ins {α} (f : St → α × St) (st : St) (n : Nat)
   have hne : (f st.push).2.blocks ≠ [] := ne_nil_of_length_eq hlen (by simp [St.push])
   simp [St.ins_pop _ n hne]
 
+theorem inBlockWith_ins {α} (b : Block) (f : St → α × St) (st : St) (n : Nat)
+    (hlen : (f { st with blocks := b :: st.blocks }).2.blocks.length = st.blocks.length + 1)
+    (h : f (St.ins { st with blocks := b :: st.blocks } (n + 1)) =
+      ((f { st with blocks := b :: st.blocks }).1, (f { st with blocks := b :: st.blocks }).2.ins (n + 1))) :
+    inBlockWith b f (st.ins n) = ((inBlockWith b f st).1, (inBlockWith b f st).2.ins n) := by
+  unfold inBlockWith
+  have e : ({ st.ins n with blocks := b :: (st.ins n).blocks } : St) = St.ins { st with blocks := b :: st.blocks } (n + 1) := by
+    simp [St.ins]
+  rw [e, h]
+  have hne : (f { st with blocks := b :: st.blocks }).2.blocks ≠ [] := by
+    intro h0; rw [h0] at hlen; simp at hlen
+  simp [St.ins_pop _ n hne]
+
 theorem insInv : ∀ fuel, InsInv fuel
-  | 0 => by constructor <;> intros <;> simp [evalS, evalArgsS, callS, bindParamsS, stmtS, blockS, ifS, whileS]
+  | 0 => by constructor <;> intros <;> simp [evalS, evalArgsS, callS, bindParamsS, stmtS, blockS, ifS, whileS, foreachS]
   | fuel + 1 => by
     have ih := insInv fuel
     have il := lenInv fuel
@@ -563,6 +609,7 @@ theorem insInv : ∀ fuel, InsInv fuel
         rcases evalS fuel e st with ⟨_ | v, st1⟩ <;> rfl
       | ifs br els => simp only [stmtS]; exact ih.ifs n br els st hne
       | «while» c body => simp only [stmtS]; exact ih.whl n c body st hne
+      | foreach x d vals body => simp only [stmtS]; exact ih.fe n x d vals body st hne
       | brk => simp [stmtS]
       | cont => simp [stmtS]
       | exit => simp [stmtS]
@@ -633,6 +680,37 @@ theorem insInv : ∀ fuel, InsInv fuel
           cases o <;> first | rfl | exact ih.whl n c body st2 hne2
         | F => rfl
         | U => rfl
+    · -- foreach
+      intro n x d vals body st hne
+      cases vals with
+      | nil => cases d <;> simp [foreachS]
+      | cons v rest =>
+        cases d with
+        | true =>
+          simp only [foreachS]
+          have hlen : (blockS fuel body { st with blocks := ⟨[(x, v)], []⟩ :: st.blocks }).2.blocks.length = st.blocks.length + 1 :=
+            (il.block body _).trans (by simp)
+          rw [inBlockWith_ins _ _ st (n + 1) hlen (ih.block (n + 1) body _ (by simp))]
+          have hl2 := inBlockWith_length ⟨[(x, v)], []⟩ (blockS fuel body) st hlen
+          rcases hB : inBlockWith ⟨[(x, v)], []⟩ (blockS fuel body) st with ⟨o, st2⟩
+          rw [hB] at hl2
+          have hne2 : st2.blocks ≠ [] := ne_nil_of_length_eq hl2 hne
+          cases o <;> first | rfl | exact ih.fe n x true rest body st2 hne2
+        | false =>
+          simp only [foreachS, St.ins_blocks, setVar_ins]
+          cases hs : setVar x v st.blocks with
+          | none => rfl
+          | some bs =>
+            simp only [Option.map]
+            have hneb : bs ≠ [] := ne_nil_of_length_eq (setVar_length hs) hne
+            have e : ({ st.ins (n + 1) with blocks := ins (n + 1) bs } : St) = St.ins { st with blocks := bs } (n + 1) := rfl
+            rw [e, inBlock_ins _ { st with blocks := bs } (n + 1) (il.block _ _)
+              (ih.block (n + 1) _ (St.push { st with blocks := bs }) (by simp [St.push]))]
+            have hl2 := inBlock_length (blockS fuel body) { st with blocks := bs } (il.block _ _)
+            rcases hB : inBlock (blockS fuel body) { st with blocks := bs } with ⟨o, st2⟩
+            rw [hB] at hl2
+            have hne2 : st2.blocks ≠ [] := ne_nil_of_length_eq hl2 hneb
+            cases o <;> first | rfl | exact ih.fe n x false rest body st2 hne2
 
 /-! ## `refInv`: the implementation-shaped interpreter refines the reference semantics -/
 
@@ -695,6 +773,10 @@ structure RefInv (fuel : Nat) : Prop where
     let r := whileI fuel c body rv none ⟨b :: bs, out⟩
     let p := whileS fuel c body ⟨bs, out⟩
     r.st.blocks.tail = p.2.blocks ∧ r.st.blocks ≠ [] ∧ r.st.out = p.2.out ∧ r.outcome = p.1 ∧ RvOk rv r
+  fe : ∀ x d vals body rv b bs out,
+    let r := foreachI fuel x d vals body rv none ⟨b :: bs, out⟩
+    let p := foreachS fuel x d vals body ⟨bs, out⟩
+    r.st.blocks.tail = p.2.blocks ∧ r.st.blocks ≠ [] ∧ r.st.out = p.2.out ∧ r.outcome = p.1 ∧ RvOk rv r
 
 theorem refInv : ∀ fuel, RefInv fuel
   | 0 => by
@@ -708,6 +790,9 @@ theorem refInv : ∀ fuel, RefInv fuel
     · intros; simp only [ifI, ifS]; exact Sim.fail _ _ _
     · intro c body rv b bs out
       simp only [whileI, whileS]
+      refine ⟨rfl, by simp [PRes.fail], rfl, rfl, (Sim.fail _ _ _).rvok⟩
+    · intro x d vals body rv b bs out
+      simp only [foreachI, foreachS]
       refine ⟨rfl, by simp [PRes.fail], rfl, rfl, (Sim.fail _ _ _).rvok⟩
   | fuel + 1 => by
     have ih := refInv fuel
@@ -804,6 +889,19 @@ theorem refInv : ∀ fuel, RefInv fuel
         simp only at hw
         generalize whileI fuel c body rv none ⟨Block.empty :: blocks, out⟩ = r at hw
         generalize whileS fuel c body ⟨blocks, out⟩ = p at hw
+        obtain ⟨h1, _, h3, h4, hk, hs, ht⟩ := hw
+        obtain ⟨flow, err, rv', st'⟩ := r
+        obtain ⟨o, ⟨pb, po⟩⟩ := p
+        simp only at h1 h3 h4 hk hs ht
+        refine ⟨?_, h4, ⟨hk, hs, ht⟩⟩
+        simp only [St.pop, h1, h3]
+      | foreach x d vals body =>
+        obtain ⟨blocks, out⟩ := st
+        simp only [stmtI, stmtS, St.push]
+        have hw := ih.fe x d vals body rv Block.empty blocks out
+        simp only at hw
+        generalize foreachI fuel x d vals body rv none ⟨Block.empty :: blocks, out⟩ = r at hw
+        generalize foreachS fuel x d vals body ⟨blocks, out⟩ = p at hw
         obtain ⟨h1, _, h3, h4, hk, hs, ht⟩ := hw
         obtain ⟨flow, err, rv', st'⟩ := r
         obtain ⟨o, ⟨pb, po⟩⟩ := p
@@ -951,6 +1049,131 @@ theorem refInv : ∀ fuel, RefInv fuel
                   simp [PRes.outcome] at hout; subst hout
                   simp only [St.pop, List.tail_cons]
                   refine ⟨?_, ?_, ?_, ?_, ⟨?_, ?_, ?_⟩⟩ <;> simp [PRes.outcome]
+
+    · -- foreach
+      intro x d vals body rv b bs out
+      cases d with
+      | true =>
+        cases vals with
+        | nil =>
+          simp only [foreachI, foreachS, St.clearCurrent, if_true, declareVar, aget_empty_vars]
+          exact ⟨rfl, by simp [PRes.ok], rfl, rfl, (Sim.ok _ _).rvok⟩
+        | cons v rest =>
+          have hset : setVar x v ({ Block.empty with vars := (x, SVal.null) :: Block.empty.vars } :: bs) =
+              some (⟨[(x, v)], []⟩ :: bs) := by
+            simp [setVar, aget, aset, Block.empty]
+          simp only [foreachI, foreachS, St.clearCurrent, if_true, declareVar, aget_empty_vars, hset, inBlockWith]
+          have hsim := ih.block body none ⟨⟨[(x, v)], []⟩ :: bs, out⟩
+          have hlen := il.block body ⟨⟨[(x, v)], []⟩ :: bs, out⟩
+          simp only [] at hsim hlen
+          generalize executeI fuel body none ⟨⟨[(x, v)], []⟩ :: bs, out⟩ = r at hsim
+          rcases hB : blockS fuel body ⟨⟨[(x, v)], []⟩ :: bs, out⟩ with ⟨o, s2⟩
+          rw [hB] at hsim hlen
+          obtain ⟨hst, hout, hk, hs, ht⟩ := hsim
+          obtain ⟨flow, err, rv', st'⟩ := r
+          simp only at hst hout hk hs ht hlen
+          subst hst
+          obtain ⟨blocks2, out2⟩ := st'
+          simp only [List.length_cons] at hlen
+          cases blocks2 with
+          | nil => simp at hlen
+          | cons b2 bs2 =>
+            cases err with
+            | some e =>
+              simp [PRes.outcome] at hout; subst hout
+              simp only [St.pop, List.tail_cons]
+              exact ⟨rfl, by simp [PRes.fail], rfl, rfl, (Sim.fail _ _ _).rvok⟩
+            | none =>
+              cases flow with
+              | terminate =>
+                simp [PRes.outcome] at hout; subst hout
+                have := hk rfl (by simp); subst this
+                simp only [St.pop, List.tail_cons]
+                exact ih.fe x true rest body rv b2 bs2 out2
+              | cont =>
+                simp [PRes.outcome] at hout; subst hout
+                have := hk rfl (by simp); subst this
+                simp only [St.pop, List.tail_cons]
+                exact ih.fe x true rest body rv b2 bs2 out2
+              | terminateWithError => exact absurd rfl (ht rfl)
+              | brk =>
+                simp [PRes.outcome] at hout; subst hout
+                simp only [St.pop, List.tail_cons]
+                exact ⟨rfl, by simp [PRes.ok], rfl, rfl, (Sim.ok _ _).rvok⟩
+              | exit =>
+                simp [PRes.outcome] at hout; subst hout
+                simp only [St.pop, List.tail_cons]
+                refine ⟨?_, ?_, ?_, ?_, ⟨?_, ?_, ?_⟩⟩ <;> simp [PRes.outcome]
+              | ret =>
+                cases rv' with
+                | none => exact absurd rfl (hs rfl rfl)
+                | some w =>
+                  simp [PRes.outcome] at hout; subst hout
+                  simp only [St.pop, List.tail_cons]
+                  refine ⟨?_, ?_, ?_, ?_, ⟨?_, ?_, ?_⟩⟩ <;> simp [PRes.outcome]
+      | false =>
+        cases vals with
+        | nil =>
+          simp only [foreachI, foreachS, St.clearCurrent, Bool.false_eq_true, if_false]
+          exact ⟨rfl, by simp [PRes.ok], rfl, rfl, (Sim.ok _ _).rvok⟩
+        | cons v rest =>
+          have hset : setVar x v (Block.empty :: bs) = (setVar x v bs).map (Block.empty :: ·) := by
+            cases h : setVar x v bs <;> simp [setVar, h]
+          simp only [foreachI, foreachS, St.clearCurrent, Bool.false_eq_true, if_false, hset]
+          cases hs : setVar x v bs with
+          | none =>
+            simp only [Option.map]
+            exact ⟨rfl, by simp [PRes.fail], rfl, rfl, (Sim.fail _ _ _).rvok⟩
+          | some bs1 =>
+            simp only [Option.map, inBlock, St.push]
+            have hsim := ih.block body none ⟨Block.empty :: bs1, out⟩
+            have hlen := il.block body ⟨Block.empty :: bs1, out⟩
+            simp only [] at hsim hlen
+            generalize executeI fuel body none ⟨Block.empty :: bs1, out⟩ = r at hsim
+            rcases hB : blockS fuel body ⟨Block.empty :: bs1, out⟩ with ⟨o, s2⟩
+            rw [hB] at hsim hlen
+            obtain ⟨hst, hout, hk, hs, ht⟩ := hsim
+            obtain ⟨flow, err, rv', st'⟩ := r
+            simp only at hst hout hk hs ht hlen
+            subst hst
+            obtain ⟨blocks2, out2⟩ := st'
+            simp only [List.length_cons] at hlen
+            cases blocks2 with
+            | nil => simp at hlen
+            | cons b2 bs2 =>
+              cases err with
+              | some e =>
+                simp [PRes.outcome] at hout; subst hout
+                simp only [St.pop, List.tail_cons]
+                exact ⟨rfl, by simp [PRes.fail], rfl, rfl, (Sim.fail _ _ _).rvok⟩
+              | none =>
+                cases flow with
+                | terminate =>
+                  simp [PRes.outcome] at hout; subst hout
+                  have := hk rfl (by simp); subst this
+                  simp only [St.pop, List.tail_cons]
+                  exact ih.fe x false rest body rv b2 bs2 out2
+                | cont =>
+                  simp [PRes.outcome] at hout; subst hout
+                  have := hk rfl (by simp); subst this
+                  simp only [St.pop, List.tail_cons]
+                  exact ih.fe x false rest body rv b2 bs2 out2
+                | terminateWithError => exact absurd rfl (ht rfl)
+                | brk =>
+                  simp [PRes.outcome] at hout; subst hout
+                  simp only [St.pop, List.tail_cons]
+                  exact ⟨rfl, by simp [PRes.ok], rfl, rfl, (Sim.ok _ _).rvok⟩
+                | exit =>
+                  simp [PRes.outcome] at hout; subst hout
+                  simp only [St.pop, List.tail_cons]
+                  refine ⟨?_, ?_, ?_, ?_, ⟨?_, ?_, ?_⟩⟩ <;> simp [PRes.outcome]
+                | ret =>
+                  cases rv' with
+                  | none => exact absurd rfl (hs rfl rfl)
+                  | some w =>
+                    simp [PRes.outcome] at hout; subst hout
+                    simp only [St.pop, List.tail_cons]
+                    refine ⟨?_, ?_, ?_, ?_, ⟨?_, ?_, ?_⟩⟩ <;> simp [PRes.outcome]
 
 /-! ## `leInv`: no block of the stack gains a name except the current one -/
 
